@@ -272,14 +272,21 @@ struct Schedule
 			if (!prev)
 			{
 				if ( ((_start_day > _end_day && (result.tm_wday >= _start_day || result.tm_wday <= _end_day))
-					|| (_start_day < _end_day && result.tm_wday >= _start_day && result.tm_wday <= _end_day))
+					|| (_start_day <= _end_day && result.tm_wday >= _start_day && result.tm_wday <= _end_day))
 					&& now.in_range(today + _start, today + _end))
 						active = true;
 			}
-			else if ( ((_start_day > _end_day && (result.tm_wday < _start_day && result.tm_wday > _end_day))
-					  || (_start_day < _end_day && result.tm_wday >= _end_day))
-						 && now > today + _end)
+			else
+			{
+				// past the end time on the end day, before the start time on the start day,
+				// or on a day outside the window altogether
+				const bool past_end(result.tm_wday == _end_day && now > today + _end),
+					before_start(result.tm_wday == _start_day && now < today + _start);
+				if (before_start || (_start_day > _end_day
+						? result.tm_wday < _start_day && (result.tm_wday > _end_day || past_end)
+						: result.tm_wday < _start_day || result.tm_wday > _end_day || past_end))
 					active = false;
+			}
 		}
 
 		return active;
